@@ -28,6 +28,15 @@ def run_seed(verif_seed: int, pid: str, tier: str, idx: int) -> int:
     return derive(verif_seed, pid, tier, idx)
 
 
+def make_trace(mod, verif_seed, pid, tier, idx):
+    """Trace for run index `idx`: an enumerating property may map indices to cases itself."""
+    if hasattr(mod, "index_trace"):
+        t = mod.index_trace(idx, tier, verif_seed)
+        if t is not None:
+            return t
+    return mod.gen_trace(run_seed(verif_seed, pid, tier, idx), tier)
+
+
 # ---- worker ---------------------------------------------------------------------------------------
 
 def _exec_trace(pid: str, trace: dict, collect_log=False) -> dict:
@@ -50,7 +59,7 @@ def _work(args):
         if pinned:
             trace = mod.pinned_traces(tier)[idx]
         else:
-            trace = mod.gen_trace(run_seed(verif_seed, pid, tier, idx), tier)
+            trace = make_trace(mod, verif_seed, pid, tier, idx)
         res = _exec_trace(pid, trace)
         item = {
             "idx": idx, "pinned": pinned, "digest": res["digest"], "error": res["error"],
@@ -332,7 +341,7 @@ def determinism_selftest(pid, tier, verif_seed, n, items):
     mism = []
     # in-process re-run
     for idx in idxs:
-        trace = mod.gen_trace(run_seed(verif_seed, pid, tier, idx), tier)
+        trace = make_trace(mod, verif_seed, pid, tier, idx)
         r = _exec_trace(pid, trace)
         if r["digest"] != base[idx]:
             mism.append(("inproc", idx))
@@ -359,7 +368,7 @@ def print_digests(pid, tier, verif_seed, idxs):
     mod = load_prop(pid)
     out = {}
     for idx in idxs:
-        trace = mod.gen_trace(run_seed(verif_seed, pid, tier, idx), tier)
+        trace = make_trace(mod, verif_seed, pid, tier, idx)
         out[str(idx)] = _exec_trace(pid, trace)["digest"]
     print(json.dumps(out))
 
